@@ -48,10 +48,13 @@ pub fn spec(id: &str) -> Spec {
             p.lazy_pm = 200;
             p.mix_modes_pm = 500;
             p.fault_interval_ms = 150;
-            p.w_crash = 12;
-            p.w_partition = 2;
+            p.w_crash = 10;
+            p.w_partition = 8;
             p.run_len = (300, 1500);
             p.fsync_delay_ms = (1, 200);
+            p.slow_disk_pm = 250;
+            p.slow_round_pm = 300;
+            p.voters = (1, 4);
             p.paginate_pm = 500;
             p.apply_unpersisted_pm = 300;
             p.force_ready_pm = 60;
